@@ -156,8 +156,11 @@ pub fn compile(case: &Value) -> Value {
             }
             Ok(y) => {
                 let back: Result<openapiv3::OpenAPI, _> = serde_yaml::from_str(&y);
+                // "parses back to the same document": the document a consumer reads from the text (as an OpenAPI
+                // description) equals the one that was written - compared as documents, not as Rust values (the object
+                // model has two representations of e.g. `format: date-time`, a known variant or an unknown string)
                 let rt = match &back {
-                    Ok(b) => *b == api,
+                    Ok(b) => *b == api || serde_json::to_value(b).ok() == serde_json::to_value(&api).ok(),
                     Err(_) => false,
                 };
                 out["emit"] = json!({"result": "ok", "roundtrip": rt,
